@@ -16,7 +16,7 @@ def l2_szdd(res, tier, rng):
         kind = trial % 2; enc, plain = sweep.py_lzss(rng, rng.choice([0, 3, 30, 200 if tier != "quick" else 12]), 0 if kind == 0 else 2)
         f = kwajfmt.szdd(kind, len(plain), enc)
         if trial % 5 == 4: f = f[:rng.randrange(len(f))]
-        if trial % 7 == 6: f = bytes([f[0] ^ 1]) + f[1:]
+        if trial % 7 == 6 and f: f = bytes([f[0] ^ 1]) + f[1:]
         for script in "AB":
             def mk(faults):
                 sc = scenario.Scn().file("in0.sz", f).trace(1)
@@ -80,7 +80,7 @@ def l2_kwaj(res, tier, rng):
                          bytes(rng.choice(b"NAMEfile") for _ in range(rng.choice([1, 5, 8]))), bytes(rng.choice(b"ext") for _ in range(rng.choice([0, 1, 3]))),
                          bytes(rng.randrange(1, 256) for _ in range(rng.choice([0, 1, 20]))))
         if trial % 4 == 3: f = f[:rng.randrange(len(f))]
-        if trial % 11 == 10: f = bytes([f[0] ^ 1]) + f[1:]
+        if trial % 11 == 10 and f: f = bytes([f[0] ^ 1]) + f[1:]
         for script in "AB":
             def mk(faults):
                 sc = scenario.Scn().file("in0.kwj", f).trace(1).hexout(1)
